@@ -309,7 +309,7 @@ func init() {
 		Level: "exploration",
 		Rule: "case = one start-ordered cue list x periods, checked against per-cue cutting (multiset of pieces, ordered by start, no cue strictly contains a multiple of f, each piece carries its original's content, distinct objects), with exact and spare slice capacity. " +
 			"Grid (exhaustive): quick = lists of <=3 cues on 0..6 and <=2 cues on 0..9, thorough = <=3 cues on 0..9 and <=4 cues on 0..6; two texts, zero-length cues, overlaps, nesting, duplicates; f in 1..5. Random: 5..60 cues at ns/ms/s granularity, f from one unit to beyond the timeline. CLI: 'astisub fragment' on SRT files. " +
-			"distinct_nontrivial = distinct (list, period set) inputs compared.",
+			"One random case in 40 is a banner: a cue spanning 255..70 000 periods next to 0..3 short cues. CLI cases: a quarter are lists of the exhaustive grid with f from 1 s to beyond every end, a quarter have f between the end of the cue that starts last and the latest end. Lists carry metadata of every source format and some have a past (see C09). One random case in 40 is a banner: a cue spanning 255..70 000 periods next to 0..3 short cues. CLI cases: a quarter are lists of the exhaustive grid with f from 1 s to beyond every end, a quarter have f between the end of the cue that starts last and the latest end. Lists carry metadata of every source format and some have a past (see C09). distinct_nontrivial = distinct (list, period set) inputs compared.",
 		Assumptions: []string{"lists are ordered by start and f > 0 (the property's precondition)", "times are non-negative"},
 		Cases: func(tier string) int64 {
 			return int64(len(c10Lists(tier))) + randomN(tier) + cliN(tier)
